@@ -56,17 +56,17 @@ class NumpyOrSetEncoder(json.JSONEncoder):
                 'shape': obj.shape
             }
         # Case for numpy scalars
-        if isinstance(obj, (np.int32, np.int64)):
+        if isinstance(obj, np.integer):
             return int(obj)
-        if isinstance(obj, (np.float32, np.float64, np.float128)):
-            return int(obj)
+        if isinstance(obj, np.floating):
+            return float(obj)
 
         # Case for built-in Python sets
         if isinstance(obj, set):
             return {'data': list(obj), '_is_set': True}
 
         # If it is not a numpy array we fall back to base class encoder
-        return json.JSONEncoder(self, obj)  # type: ignore
+        return json.JSONEncoder.default(self, obj)
 
 
 def json_numpy_or_set_obj_hook(
